@@ -818,6 +818,31 @@ def generate_reentrant(seed, count, provides=False):
     return out
 
 
+# ---------------------------------------------------------------- anonymous values (C10 / C11)
+
+def generate_anon(seed, count):
+    """group-heavy histories over pointer-typed members in which about half of the feeding
+    constructors return NIL pointers: values without identity.  Only the NUMBER of elements a
+    consumer receives can be compared with the model (projection with anonymised arguments);
+    user functions all succeed."""
+    rng = random.Random(f"anon:{seed}")
+    prof = profile("groups")
+    prof["_name"] = "anon"
+    prof.update(p_wrap_ty=0.0, p_fault=0.0, p_as=0.0, p_ns=0.0, n_types=3, w_decorate=0.8, p_soft=0.35)
+    out = []
+    for i in range(count):
+        g = Gen(rng, prof)
+        # every type is the pointer type *T<k>
+        g.rand_type = lambda g=g: 32 + 4 * g.r.randrange(3)
+        c = g.gen_case(f"anon-{seed}-{i}")
+        for f in c["fns"]:
+            f.pop("plan", None)
+            if any(r["k"] == "group" for r in result_keys(f)) and rng.random() < 0.5:
+                f["nil_members"] = True
+        out.append(c)
+    return out
+
+
 # ---------------------------------------------------------------- viz profile (declared functions)
 
 def generate_viz(seed, count, decorators=False, pool_decorators=False):
